@@ -393,7 +393,6 @@ package expr
 //@   loop 8 invariant extends: ranged(3).arr <= alloc() && len(local(e).HTTPErrors) >= len(ranged(3)) && (local(e).HTTPErrors.arr != ranged(3).arr || local(e).HTTPErrors.off == ranged(3).off)
 //@   loop 9 modifies elems(*HTTPErrorExpr)
 //@   loop 9 invariant extends: ranged(3).arr <= alloc() && len(local(e).HTTPErrors) >= len(ranged(3)) && (local(e).HTTPErrors.arr != ranged(3).arr || local(e).HTTPErrors.off == ranged(3).off)
-//@   modifies all
 
 // ---- gRPC field numbers (C10) -------------------------------------------------------------------
 // "Every attribute [has] the field number chosen in the design with no number used twice in a message": a
@@ -429,14 +428,12 @@ package expr
 //@ func (*MappedAttributeExpr).ElemName
 //@   params ma keyName
 //@   property C02
-//@   requires ma != nil
 //@   ensures* recorded.name: inMap(ma.nameMap, keyName) ==> result == ma.nameMap[keyName]
 //@   ensures* own.name.otherwise: !inMap(ma.nameMap, keyName) ==> result == keyName
 //@   modifies nothing
 //@ func (*MappedAttributeExpr).KeyName
 //@   params ma elemName
 //@   property C02
-//@   requires ma != nil
 //@   ensures* recorded.key: inMap(ma.reverseMap, elemName) ==> result == ma.reverseMap[elemName]
 //@   ensures* own.name.otherwise: !inMap(ma.reverseMap, elemName) ==> result == elemName
 //@   modifies nothing
@@ -454,11 +451,11 @@ package expr
 //@ func (*MappedAttributeExpr).Remap
 //@   params ma
 //@   locals elems
+//@   opt loopframes none
 //@   property C02
 //   -- "att:elem" records att -> elem in one table and elem -> att in the other, from the same split
 //@   at mapupdate MappedAttributeExpr.nameMap assert* attribute.to.wire: len(elems) > 1 && key == elems[0] && value == elems[1]
 //@   at mapupdate MappedAttributeExpr.reverseMap assert* wire.to.attribute: len(elems) > 1 && key == elems[1] && value == elems[0]
-//@   modifies all
 
 // ---- body = payload minus what is mapped elsewhere (C02, C03) ---------------------------------
 // The request/response body type is computed by deleting, one by one, the attributes carried by headers,
@@ -495,7 +492,6 @@ package expr
 //@   callspec removeAttribute params a name
 //@       requires* removes.the.mapped.attribute: a == attr && name == nat.Name
 //@       modifies all
-//@   modifies all
 
 // Equal is defined through the hash ("two types are equal exactly when their structural hashes, names and tags
 // ignored, are the same"): no shortcut decides equality on anything else.
@@ -549,14 +545,12 @@ package expr
 //@       ensures result >= 0
 //@       modifies nothing
 //@   ensures* never.negative: result >= 0
-//@   modifies all
 //@ func byLength
 //@   params a r
 //@   opt safety on
 //@   property C01
 //@   requires a != nil && r != nil
 //@   panics_if kindOf(a.Type) != StringKind && kindOf(a.Type) != BytesKind && kindOf(a.Type) != MapKind && kindOf(a.Type) != ArrayKind
-//@   modifies all
 //@ func byEnum
 //@   params a r
 //@   opt safety on
@@ -565,7 +559,6 @@ package expr
 //@   callspec Int params
 //@       ensures result >= 0
 //@       modifies nothing
-//@   modifies all
 
 // The field number of an attribute is the LAST "rpc:tag" value recorded for it (a redefinition overrides an
 // inherited number): validation (validateRPCTags) and the proto generator (grpc/codegen rpcTag) both read it
@@ -594,7 +587,6 @@ package expr
 //@   callspec (*ValidationExpr).AddRequired params v n
 //@       requires* recorded.by.attribute.name: len(n) == 1 && n[0] == splitHead(at.Name, ":")
 //@       modifies all
-//@   modifies all
 
 // ---- the example generator is seeded from the API name (C09) -------------------------------------
 // "Generating twice ... yields byte-identical contents, independent of ... time": every value the faker-based
@@ -692,13 +684,10 @@ package expr
 //@ func (*MappedAttributeExpr).Attribute
 //@   params ma
 //@   property C02
-//@   requires ma != nil
 //@   ensures* own.copy: result != nil && fresh(result)
-//@   modifies all
 //@ func (*MappedAttributeExpr).Merge
 //@   params ma other
 //@   property C02
 //@   callspec (*AttributeExpr).Merge params a o
 //@       requires* merges.a.copy: sinceEntry(o)
 //@       modifies all
-//@   modifies all
